@@ -154,7 +154,11 @@ class UDSClient:
                 resp = parse_pdu(raw_resp, request)
                 n_timeout = 0  # Only raise errors for consecutive timeouts
                 n_pending += 1
-                if n_pending >= MAX_N_PENDING:
+                if (
+                    n_pending >= MAX_N_PENDING
+                    and isinstance(resp, service.NegativeResponse)
+                    and resp.response_code == UDSErrorCodes.requestCorrectlyReceivedResponsePending
+                ):
                     raise RuntimeError("ECU appears to be stuck in ResponsePending loop")
             else:
                 # We reach this code here once all response pending
